@@ -292,7 +292,7 @@ Print Assumptions C15_switch_whole_derive.
 (* ... members that differ only in what get_member_attrs (bark off) does not see ... *)
 Theorem C15_switch_whole_derive_members : forall be order order_tp x d' attrs,
     get_data_type_attrs be (ri_attrs x) = Ok (attrs, false) ->
-    data_equiv be (ri_data x) d' ->
+    data_equiv be false (ri_data x) d' ->
     raw_has_none x = false -> raw_has_none (with_data x d') = false ->
     derive_model be order order_tp x = derive_model be order order_tp (with_data x d').
 Proof. exact switch_whole_derive_members. Qed.
